@@ -19,6 +19,82 @@ def _same_words(a, b):
     return w(a) == w(b)
 
 
+def _emitted(effects):
+    """the text a sequence of effects writes to its one sink (a stream fed with <<, or a string grown with += / append /
+    push_back), as a string in which run-time values appear as {expression}; None when something else happens as well"""
+    out = []
+    sink = None
+
+    def item(x):
+        x = x.strip()
+        m = re.fullmatch(r'"(.*)"', x)
+        if m:
+            return m.group(1)
+        if re.fullmatch(r'\d+', x) and 32 <= int(x) < 127:
+            return chr(int(x))
+        m = re.fullmatch(r'to_string\((.*)\)', x)
+        if m:
+            x = m.group(1)
+        while x.startswith('(') and x.endswith(')') and _balanced(x[1:-1]):
+            x = x[1:-1]
+        return '{%s}' % x
+
+    def chain(e):
+        """((S<<a)<<b) -> (S, [a, b])"""
+        items = []
+        while True:
+            if not (e.startswith('(') and e.endswith(')')):
+                return e, items
+            body = e[1:-1]
+            depth = 0
+            cut = None
+            for i in range(len(body) - 1, 0, -1):
+                c = body[i]
+                if c == ')':
+                    depth += 1
+                elif c == '(':
+                    depth -= 1
+                elif depth == 0 and body[i - 1:i + 1] == '<<':
+                    cut = i - 1
+                    break
+            if cut is None:
+                return e, items
+            items.insert(0, body[cut + 2:])
+            e = body[:cut]
+    for e in effects:
+        if e == 'loop' or e.startswith('loop@'):
+            out.append('<loop>')
+            continue
+        m = re.fullmatch(r'return (\w+)(\.str\(\))?', e)
+        if m:
+            if sink is not None and m.group(1) != sink:
+                return None
+            continue
+        m = re.fullmatch(r'\((\w+)\+=(.*)\)', e) or re.fullmatch(r'(\w+)\.(?:append|push_back)\((.*)\)', e)
+        if m:
+            name, items = m.group(1), [m.group(2)]
+        else:
+            name, items = chain(e)
+            if not items or not re.fullmatch(r'\w+', name):
+                return None
+        if sink is None:
+            sink = name
+        if name != sink:
+            return None
+        out.extend(item(x) for x in items)
+    return ''.join(out)
+
+
+def _balanced(x):
+    d = 0
+    for c in x:
+        d += c == '('
+        d -= c == ')'
+        if d < 0:
+            return False
+    return d == 0
+
+
 def _seq(ctx, rule, key, got, want, site, what, optional=()):
     """ordered comparison; `optional` items may be absent from got. Returns nothing; raises AnalysisBroken for unknown extras."""
     g = [x for x in got if x not in optional]
@@ -169,6 +245,14 @@ def check(ctx, p):
                 want += ['(%s<<" ")' % S]
                 want += ['(%s<<"-")' % S] if ep == sq['NO_SQUARE'] else ['(%s<<%d)' % (S, 97 + ep % 8), '(%s<<%d)' % (S, 49 + ep // 8)]
                 want += ['((((%s<<" ")<<_half_move_counter)<<" ")<<(((_ply_counter-1)/2)+1))' % S, 'return %s.str()' % S]
+                eg, ew = _emitted(got), _emitted(want)
+                if eg is not None and ew is not None and got != want:
+                    # the same characters may be handed to the sink in other portions, or to a string instead of a stream
+                    ctx.ob('C16.R4.writer', 'side=%d,rights=%d,ep=%d' % (side, rights, ep), eg == ew,
+                           'the writer prints board, side letter, the castling letters of the rights held in the order KQkq (or -), the '
+                           'e.p. square as file letter and rank digit (or -), the half-move clock and the move number (plies-1)/2+1'
+                           + ('' if eg == ew else ' — prints %r, the format prescribes %r' % (eg, ew)), site=fen.loc())
+                    continue
                 _seq(ctx, 'C16.R4.writer', 'side=%d,rights=%d,ep=%d' % (side, rights, ep), got, want, fen.loc(),
                      'the writer prints board, side letter, the castling letters of the rights held in the order KQkq (or -), the e.p. '
                      'square as file letter and rank digit (or -), the half-move clock and the move number (plies-1)/2+1')
